@@ -266,9 +266,9 @@ open MiniPy in
     than the shape and `validSl` holds on every axis (an int `i` read as `slice(i, i + 1, 1)`), and raises
     `ConstraintExpressionError` otherwise -/
 theorem C15_source_check_hyperslab (its : List Item) (shape : List Nat) :
-    runItem [("slice_", .tuple its), ("shape", shapeVal shape)] Gen.src_check_hyperslab "shape"
+    runItem [("slice_", .tuple its), ("shape", shapeTuple shape)] Gen.src_check_hyperslab "shape"
       = if its.length ≤ shape.length ∧ (List.zipWith validSl shape (its.map itemSlice)).all id = true then
-          .ok (shapeVal shape)
+          .ok (shapeTuple shape)
         else .error (.raised "ConstraintExpressionError") :=
   src_check_hyperslab_eq its shape
 
@@ -276,10 +276,10 @@ open MiniPy in
 /-- … so on the slice tuples of the model (`parse_hyperslab` only produces slices) the source raises exactly when
     `sliceBase` answers `ConstraintExpressionError`, and returns exactly when `sliceBase` applies the selection -/
 theorem C15_source_check_hyperslab_sliceBase (b : Base) (sl : List PSlice) :
-    (runItem [("slice_", .tuple (sl.map sliceItem)), ("shape", shapeVal b.shape)] Gen.src_check_hyperslab "shape"
+    (runItem [("slice_", .tuple (sl.map sliceItem)), ("shape", shapeTuple b.shape)] Gen.src_check_hyperslab "shape"
         = .error (.raised "ConstraintExpressionError") ↔ sliceBase b sl = .error .ceError) ∧
-    (runItem [("slice_", .tuple (sl.map sliceItem)), ("shape", shapeVal b.shape)] Gen.src_check_hyperslab "shape"
-        = .ok (shapeVal b.shape) ↔ ∃ b', sliceBase b sl = .ok b') := by
+    (runItem [("slice_", .tuple (sl.map sliceItem)), ("shape", shapeTuple b.shape)] Gen.src_check_hyperslab "shape"
+        = .ok (shapeTuple b.shape) ↔ ∃ b', sliceBase b sl = .ok b') := by
   rw [src_check_hyperslab_eq]
   simp only [List.length_map, List.map_map, Function.comp_def, itemSlice_sliceItem, List.map_id']
   unfold sliceBase
@@ -290,16 +290,16 @@ theorem C15_source_check_hyperslab_sliceBase (b : Base) (sl : List PSlice) :
     exact ⟨⟨fun _ => rfl, fun _ => rfl⟩, ⟨(fun e => by cases e), (fun ⟨_, e⟩ => by cases e)⟩⟩
 
 open MiniPy in
-example : runItem [("slice_", .tuple [.slice (some 1) (some 21) (some 1)]), ("shape", shapeVal [3])]
-    Gen.src_check_hyperslab "shape" = .ok (shapeVal [3]) := by decide
+example : runItem [("slice_", .tuple [.slice (some 1) (some 21) (some 1)]), ("shape", shapeTuple [3])]
+    Gen.src_check_hyperslab "shape" = .ok (shapeTuple [3]) := by decide
 open MiniPy in
-example : runItem [("slice_", .tuple [.int 3]), ("shape", shapeVal [3])]
+example : runItem [("slice_", .tuple [.int 3]), ("shape", shapeTuple [3])]
     Gen.src_check_hyperslab "shape" = .error (.raised "ConstraintExpressionError") := by decide
 open MiniPy in
-example : runItem [("slice_", .tuple [.slice (some 0) (some 1) none]), ("shape", shapeVal [0])]
-    Gen.src_check_hyperslab "shape" = .ok (shapeVal [0]) := by decide
+example : runItem [("slice_", .tuple [.slice (some 0) (some 1) none]), ("shape", shapeTuple [0])]
+    Gen.src_check_hyperslab "shape" = .ok (shapeTuple [0]) := by decide
 open MiniPy in
-example : runItem [("slice_", .tuple [.int 0, .int 0]), ("shape", shapeVal [3])]
+example : runItem [("slice_", .tuple [.int 0, .int 0]), ("shape", shapeTuple [3])]
     Gen.src_check_hyperslab "shape" = .error (.raised "ConstraintExpressionError") := by decide
 
 end Pydap.C15
